@@ -52,6 +52,18 @@ def run_single(ctx):
                     if r.lhs != e.label and ctx.rng.random() < 0.7:
                         continue
                     one_replacement(ctx, host.rhs, e, r.rhs, reqs, meta)
+                    if ctx.rng.random() < 0.25:
+                        # the replacement given as a FactorGraph built from the graph (from_graph) or as a copy of one: same nodes,
+                        # edges, external nodes and hence the same TYPE
+                        fg = fggs.FactorGraph.from_graph(r.rhs)
+                        if ctx.rng.random() < 0.5:
+                            fg = fg.copy()
+                        ctx.count('replace.factorgraph-replacement')
+                        if fg.type != r.rhs.type or fg.ext != r.rhs.ext:
+                            ctx.fail('FactorGraph.from_graph / copy of a graph does not have the type / external nodes of the graph',
+                                     dict(ext=[str(v) for v in r.rhs.ext]), [str(l) for l in fg.type], [str(l) for l in r.rhs.type],
+                                     tags=['replace', 'factorgraph-type'])
+                        one_replacement(ctx, host.rhs, e, fg, reqs, meta)
                     if r is host and ctx.rng.random() < 0.5:
                         one_replacement(ctx, host.rhs, e, r.rhs, reqs, meta, alias=True)
         # an edge that is not in the graph
